@@ -12,7 +12,7 @@ C07: schema parsing — names, references, rejection classes, preservation, orde
 4. Preservation: `C07_preserves_record/enum/fixed/array/map/union`, `C07_logical_*`.
 5. Order independence: `C07_order_independent_ref`, `C07_forward_ref_eq_late_lookup`,
    `C07_backward_ref_stable`, `C07_def_binds`, `C07_node_stable`, `C07_resolveKeys_eq`.
-6. Whole parse: `C07_parse_ok`, `C07_parse_succeeds`.
+6. Whole parse: `C07_parse_ok`, `C07_parse_succeeds`, `C07_rejects_deep`.
 -/
 namespace Avro.Theorems
 open Avro Avro.Impl
@@ -625,11 +625,13 @@ theorem C07_accepts_conditional_self :
                      { type := .null, logical := none }] = .ok () := by
   rfl
 
-/-- What a successful parse guarantees: the stages all succeeded, every pending reference was
-    defined, the result is the late-resolved node vector and it has no record cycle. -/
+/-- What a successful parse guarantees: the document is within the recursion limit of
+    `serde_json`, the stages all succeeded, every pending reference was defined, the result is
+    the late-resolved node vector and it has no record cycle. -/
 theorem C07_parse_ok (j : Json) (n : Nat) (S : SchemaMut) (h : parseJson j n = .ok S) :
     ∃ raw k st,
-      rawOfJson 128 j = .ok raw ∧
+      jsonNesting j ≤ 127 ∧
+      rawOfJson (rawGas j) j = .ok raw ∧
       registerNode (n + 2) raw none {} = .ok (k, st) ∧
       (∀ key ∈ st.unresolved, (st.names.lookup key).isSome) ∧
       S = (st.nodes.map fun nd =>
@@ -638,26 +640,32 @@ theorem C07_parse_ok (j : Json) (n : Nat) (S : SchemaMut) (h : parseJson j n = .
   unfold parseJson at h
   split at h
   · cases h
-  · rename_i raw hraw
+  · rename_i hnest
     split at h
     · cases h
-    · rename_i k st hreg
+    · rename_i raw hraw
       split at h
       · cases h
-      · rename_i S' hres
+      · rename_i k st hreg
         split at h
         · cases h
-        · rename_i u hcyc
-          simp only [Except.ok.injEq] at h
-          subst h
-          refine ⟨raw, k, st, hraw, hreg, ?_, resolveKeys_ok hres, C07_cycle_check_sound _ hcyc⟩
-          exact (C07_resolveKeys_ok_iff st).mp ⟨_, hres⟩
+        · rename_i S' hres
+          split at h
+          · cases h
+          · rename_i u hcyc
+            simp only [Except.ok.injEq] at h
+            subst h
+            refine ⟨raw, k, st, by omega, hraw, hreg, ?_, resolveKeys_ok hres,
+              C07_cycle_check_sound _ hcyc⟩
+            exact (C07_resolveKeys_ok_iff st).mp ⟨_, hres⟩
 
-/-- Conversely: if the stages before the cycle check succeed, every pending reference is defined
-    and the resolved graph has no record cycle, parsing succeeds with the late-resolved node
-    vector (the cycle check neither runs out of fuel nor reports a spurious cycle). -/
+/-- Conversely: if the document is within the recursion limit, the stages before the cycle check
+    succeed, every pending reference is defined and the resolved graph has no record cycle,
+    parsing succeeds with the late-resolved node vector (the cycle check neither runs out of fuel
+    nor reports a spurious cycle). -/
 theorem C07_parse_succeeds (j : Json) (n : Nat) (raw : RawSchema) (k : PKey) (st : PState)
-    (hraw : rawOfJson 128 j = .ok raw)
+    (hnest : jsonNesting j ≤ 127)
+    (hraw : rawOfJson (rawGas j) j = .ok raw)
     (hreg : registerNode (n + 2) raw none {} = .ok (k, st))
     (hres : ∀ key ∈ st.unresolved, (st.names.lookup key).isSome)
     (hacyc : ¬ ∃ i, Relation.TransGen
@@ -669,6 +677,13 @@ theorem C07_parse_succeeds (j : Json) (n : Nat) (raw : RawSchema) (k : PKey) (st
   have hSeq := resolveKeys_ok hS
   rw [← hSeq] at hacyc ⊢
   have hc := (C07_cycle_check_iff S).2.mpr hacyc
-  simp only [parseJson, hraw, hreg, hS, hc]
+  have hn : ¬ jsonNesting j > 127 := by omega
+  simp only [parseJson, hn, if_false, hraw, hreg, hS, hc]
+
+/-- A document whose arrays / objects are nested more than 127 deep is rejected (the recursion
+    limit of `serde_json`), whatever it contains. -/
+theorem C07_rejects_deep (j : Json) (n : Nat) (h : 127 < jsonNesting j) :
+    parseJson j n = .error .json := by
+  simp [parseJson, h]
 
 end Avro.Theorems
